@@ -20,14 +20,15 @@ TRUSTED = ["modelled not verified: numpy element-wise functions, CPython float a
 
 
 def correspond(ctx):
-    return X.run(ctx, "c03", ctx.n(300, 20000))
+    return X.run(ctx, "c03", ctx.n(300, 20000), gen_kwargs={"allow_repeated": True})
 
 
 def search(ctx, broken):
     out = {"failures": [], "strategy": []}
     # (a) the reference tables the theorems were last proved for, as oracle
     try:
-        r = X.run(ctx, "c03", ctx.n(1500, 20000), ref=True)
+        r = X.run(ctx, "c03", ctx.n(1500, 20000), ref=True,
+                  gen_kwargs={"allow_repeated": True})
         for f in r["failures"]:
             f["oracle"] = "independent"
             f["kind"] = "violation"
